@@ -7,7 +7,15 @@ DirU == Dir("U", "none", "none", "none")
 IdsBase == <<[a |-> 1, f |-> "lower", id |-> "slot-rsa"], [a |-> 3, f |-> "upper", id |-> "slot-ec"]>>
 Base == [hs |-> <<"regular">>, ns |-> "NONS", hard |-> FALSE, ln |-> "ln", ru |-> "ru", rh |-> "rh", ip |-> "ip", tid |-> "t",
          algo |-> 1, val |-> 43200, ids |-> IdsBase, dir |-> DirU, ans |-> "honest",
-         ncert |-> 1, ncsr |-> 1, sgen |-> "ok", more |-> FALSE, fok |-> FALSE]
+         ncert |-> 1, ncsr |-> 1, sgen |-> "ok", more |-> FALSE, fok |-> FALSE,
+         wire |-> "json",       \* request message format: "json", or the text of the legacy HardKey attribute ("absent" = none)
+         kalgo |-> "ECCP256"]   \* key algorithm of the stub handler's agent key (the regular handler uses the package default)
+\* the legacy message format cannot name a CA key algorithm: algorithm 0 (default) must have a slot
+Ids0 == <<[a |-> 0, f |-> "lower", id |-> "slot-default"], [a |-> 1, f |-> "upper", id |-> "slot-rsa"]>>
+Malformed == {"absent", "", "yes", "2", "TrUe", "tRUE", "on", "truee"}      \* ParseBool rejects these: not a hardware-key request
+LegacyWires == TrueSpellings \cup FalseSpellings \cup Malformed
+Legacy(w) == [Base EXCEPT !.wire = w, !.hard = (w \in TrueSpellings), !.algo = 0, !.ids = Ids0]
+KAlgos == {"RSA2048", "ECCP256", "ECCP384", "ECCP521", "ED25519"}
 
 FileCls == {"none", "U", "O", "bad"}
 AllDirs == {Dir(a, b, c, "none") : a \in FileCls, b \in FileCls, c \in {"none", "U", "O"}}
@@ -41,6 +49,8 @@ C01_Sc1 == {[Base EXCEPT !.dir = d, !.ans = a] : d \in AllDirs, a \in Ans1}
       \cup {[Base EXCEPT !.dir = d, !.fok = TRUE] : d \in {DirU, Dir("none", "U", "none", "none"), Dir("O", "U", "none", "none")}}
       \cup {[Base EXCEPT !.ns = n, !.hard = h, !.dir = d] : n \in {"NONS", "NSOK"}, h \in BOOLEAN, d \in {DirU, Dir("none", "none", "U", "none")}}
       \cup {[Base EXCEPT !.hs = hl, !.ans = a] : hl \in HL, a \in {"honest", "otherkey"}}
+      \cup {Legacy(w) : w \in LegacyWires}
+      \cup {[Legacy(w) EXCEPT !.hs = <<"reject", "regular", "accept">>] : w \in {"1", "T", "0", "absent"}}
       \cup {[Base EXCEPT !.hs = hl, !.fok = TRUE] : hl \in {<<"reject", "accept">>, <<"regular", "accept">>, <<"reject">>}}
       \cup {[Base EXCEPT !.hs = hl, !.more = TRUE] : hl \in {<<"regular">>, <<"reject", "regular">>}}
 C01_Sc2(s) == IF s.more THEN {[Base EXCEPT !.ans = a, !.hs = hl] : a \in Ans2, hl \in {<<"regular">>, <<"regular", "accept">>}} ELSE {}
@@ -65,12 +75,17 @@ C02_Sc2(s) == IF s.more THEN {[Base EXCEPT !.algo = a, !.more = m] : a \in {1, 2
 C03_Sc1 == {[Base EXCEPT !.hs = hl, !.ncert = n, !.more = TRUE] : hl \in {<<"regular">>, <<"accept">>}, n \in {1, 3}}
       \cup {[Base EXCEPT !.val = v, !.more = TRUE] : v \in Vals}
       \cup {[Base EXCEPT !.ans = "otherkey", !.more = TRUE]}
-C03_Sc2(s) == IF s.more THEN {[Base EXCEPT !.hs = hl, !.ncert = n, !.fok = TRUE] : hl \in {<<"regular">>, <<"accept">>}, n \in {0, 2}}
-                         \cup {[Base EXCEPT !.ans = "otherkey"], [Base EXCEPT !.algo = 2]} ELSE {}
+      \cup {[Base EXCEPT !.hs = <<"accept">>, !.kalgo = k, !.ncert = 2, !.more = TRUE] : k \in KAlgos}   \* every agent-key algorithm
+C03_Sc2(s) == IF ~s.more THEN {}
+              ELSE IF s.kalgo # "ECCP256" THEN {[Base EXCEPT !.hs = <<"accept">>, !.kalgo = s.kalgo, !.ncert = n, !.fok = (n = 2)] : n \in {1, 2}}
+              ELSE {[Base EXCEPT !.hs = hl, !.ncert = n, !.fok = TRUE] : hl \in {<<"regular">>, <<"accept">>}, n \in {0, 2}}
+                   \cup {[Base EXCEPT !.ans = "otherkey"], [Base EXCEPT !.algo = 2]}
 C03t_Sc1 == {[Base EXCEPT !.hs = hl, !.ncert = n, !.val = v, !.more = TRUE] : hl \in {<<"regular">>, <<"accept">>}, n \in 1..3, v \in Vals}
        \cup {[Base EXCEPT !.ans = "otherkey", !.more = TRUE]}
+       \cup {[Base EXCEPT !.hs = <<"accept">>, !.kalgo = k, !.ncert = 3, !.more = TRUE] : k \in KAlgos}
 \* (second runs admit faults; a third run follows a regular second run, without further faults)
 C03t_Sc2(s) == IF ~s.more THEN {}
+               ELSE IF s.kalgo # "ECCP256" THEN {[Base EXCEPT !.hs = <<"accept">>, !.kalgo = s.kalgo, !.ncert = n, !.fok = TRUE] : n \in {0, 2}}
                ELSE IF s.fok THEN {[Base EXCEPT !.hs = hl] : hl \in {<<"regular">>, <<"accept">>}} \cup {[Base EXCEPT !.ans = "otherkey"]}
                ELSE {[Base EXCEPT !.hs = hl, !.ncert = n, !.fok = TRUE] : hl \in {<<"regular">>, <<"accept">>}, n \in {0, 2}}
                     \cup {[Base EXCEPT !.ncert = n, !.fok = TRUE, !.more = TRUE] : n \in {0, 2}}
@@ -78,8 +93,9 @@ C03t_Sc2(s) == IF ~s.more THEN {}
 
 \* C04: every single fault at every agent operation index / CA call / handler method, 1..3 certificates per request,
 \* one or two requests, every typed generation error
-C04_Sc1 == {[Base EXCEPT !.ncert = n, !.fok = TRUE] : n \in 1..3}
-      \cup {[Base EXCEPT !.hs = <<"accept">>, !.ncert = n, !.ncsr = k, !.fok = TRUE] : n \in 1..3, k \in 1..2}
+C04_Sc1 == {[Base EXCEPT !.ncert = n, !.fok = TRUE] : n \in 0..3}         \* 0 = the CA replies OK without a certificate
+      \cup {[Base EXCEPT !.hs = <<"accept">>, !.ncert = n, !.ncsr = k, !.fok = TRUE] : n \in 0..3, k \in 1..2}
+      \cup {[Base EXCEPT !.hs = <<"accept">>, !.kalgo = k, !.ncert = 2, !.fok = TRUE] : k \in KAlgos}
       \cup {[Base EXCEPT !.hs = <<"accept">>, !.sgen = g, !.fok = TRUE] : g \in {"CSR", "Conf", "Params", "empty"}}
       \cup {[Base EXCEPT !.hs = hl, !.ans = a, !.fok = TRUE] : hl \in {<<"regular", "accept">>, <<"reject", "regular">>}, a \in {"honest", "otherkey", "closed"}}
       \cup {[Base EXCEPT !.hs = hl, !.fok = TRUE] : hl \in {<<>>, <<"reject">>, <<"reject", "reject">>, <<"reject", "accept">>}}
